@@ -87,6 +87,9 @@ const (
 	// FaultErrWithValue: the operation returns an error TOGETHER WITH the value it would have returned when healthy (a stale
 	// cache entry handed out next to the error, a partially constructed record): the error still means failure.
 	FaultErrWithValue = "error-together-with-a-usable-value"
+	// FaultClientGone: the client goes away / the server shuts down while this storage call is in progress: the request's context is
+	// cancelled, this call and EVERY later storage call of any kind answers with the context's error (a storage that honours ctx)
+	FaultClientGone = "request-context-cancelled-from-here-on"
 )
 
 var ErrInjected = errors.New("injected storage fault")
@@ -123,6 +126,9 @@ type Store struct {
 	persist  map[string]string // Op -> kind: every call of Op from now on fails this way (an outage, not a one-off failure)
 	fired    []string
 	nextID   int
+	// CancelFn cancels the context of the request being served (set by the harness together with a FaultClientGone plan entry)
+	CancelFn  func()
+	cancelled bool
 	// ErrText is the text of injected errors (C18 feeds metacharacters through it).
 	ErrText string
 	// LoginURLBase builds the login UI URL handed to NewServiceProvider.
@@ -332,6 +338,20 @@ func (s *Store) Occ(op string) int {
 }
 
 // ResetFired forgets which planned faults fired so far (histories).
+// ClientGoneNow: the client is gone before the request is served: every storage call answers with the context's error.
+func (s *Store) ClientGoneNow() {
+	s.mu.Lock()
+	s.cancelled = true
+	s.mu.Unlock()
+}
+
+// ClientBack: the next request comes from a client that is there (ends the effect of a FaultClientGone entry that fired).
+func (s *Store) ClientBack() {
+	s.mu.Lock()
+	s.cancelled, s.CancelFn = false, nil
+	s.mu.Unlock()
+}
+
 func (s *Store) ResetFired() {
 	s.mu.Lock()
 	s.fired = nil
@@ -385,6 +405,15 @@ func (s *Store) enter(op string, args ...string) (idx int, fault string) {
 	fault = s.faults[k]
 	if fault == "" {
 		fault = s.persist[op]
+	}
+	if fault == FaultClientGone {
+		s.cancelled = true
+		if s.CancelFn != nil {
+			s.CancelFn()
+		}
+	}
+	if s.cancelled {
+		fault = FaultCtxCanceled
 	}
 	if fault != "" {
 		s.fired = append(s.fired, k+"="+fault)
